@@ -215,7 +215,7 @@ def family_groups(seed, tier, batches, tiny_corpus=None):
         by_len.setdefault(len(c["files"]), []).append(c)
     for v in by_len.values():
         v.sort(key=lambda c: c["id"])
-    n3, n4 = (14, 10) if tier == "quick" else (len(by_len.get(3, [])), 700)
+    n3, n4 = (14, 10) if tier == "quick" else (len(by_len.get(3, [])), 400)
     scale = float(os.environ.get("VERIF_C08_SCALE", "1"))
     if tier != "quick" and scale != 1:
         n3, n4 = int(n3 * scale), int(n4 * scale)
